@@ -36,7 +36,7 @@ def handleRing (toks : List String) : String :=
           | none => (s, outs, true)
         | _ => (s, outs, true)) (s0, [], false)
       if bad then "bad-op" else
-      let (sf, dtr) := drain 10000 (s, [])
+      let (sf, dtr) := drain 3000 (s, [])
       let allDone := (List.range (sf.nprod + 1)).all (threadFinished sf)
       let rest := (sf.r.log.drop sf.r.tail)
       let res := "[" ++ ",".intercalate (sf.rets.map fun (e, b) => s!"e{e}:{bool01 b}") ++ "]"
@@ -115,7 +115,7 @@ def handleSpin (toks : List String) : String :=
         else (d, outs, true)
       | _ => (d, outs, true)) (d0, [], false)
     if bad then "bad-op" else
-    let (df, dtr) := spinDrain 100000 (d, [])
+    let (df, dtr) := spinDrain 3000 (d, [])
     let allDone := (List.range df.n).all (spinFinished df)
     let tr := df.s.tryResults.reverse.map fun (p, _, r) => s!"T{p}:{bool01 r}"
     " ; ".intercalate (outs.reverse ++ dtr.reverse ++ [s!"done={bool01 allDone} viol=0 try=[{",".intercalate tr}] flag={bool01 df.s.flag}"])
